@@ -253,9 +253,11 @@ def make_array(clsname: str, folder: Path, g: dict, keep: list):
         # a non-default filename_template, in a folder that ALSO holds a completely written array with the default names:
         # every observer of the custom array must follow its own template
         if not any(isinstance(k, tuple) and k[0] == "neighbour" and k[1] == str(folder) for k in keep):
-            nb = cls(folder, shape, internal, mask)
-            for idx in np.ndindex(*shape):
-                nb.dump(idx, np.full(internal, -7, dtype=object) if internal else -7)
+            import contextlib
+            with contextlib.suppress(Exception):      # the neighbour is scenery: a dump that raises shows up in the history itself
+                nb = cls(folder, shape, internal, mask)
+                for idx in np.ndindex(*shape):
+                    nb.dump(idx, np.full(internal, -7, dtype=object) if internal else -7)
             keep.append(("neighbour", str(folder)))
         return cls(folder, shape, internal, mask, filename_template="el_{:d}.custom")
     if clsname == "SharedMemoryDictArray+mapping":
